@@ -28,7 +28,8 @@ RULE = ('cases = (a) Distance node: 1-4 summaries of widths 1-4 (width 1 as (n,)
         'euclidean/cityblock/chebyshev(w), seuclidean(V), mahalanobis(VI)}; (b) AdaptiveDistance driven directly: 1-4 update rounds, data '
         'sets split into singletons / one block / random partitions; (c) Rejection and (d) AdaptiveDistanceSMC with an adaptive distance; '
         'distinct = hash of the case; non-trivial = at least 2 rows or 2 summaries (adaptive: at least 2 add_data calls in a round)')
-ASSUMPTIONS = ['rtol 1e-9 (atol 1e-12 x magnitude) between elfi outputs and the directly evaluated definition',
+ASSUMPTIONS = ['rtol 1e-9 (atol 1e-12 x magnitude) between elfi outputs and the directly evaluated definition; for the adaptive scale the bound is '
+               'widened by 1e3*eps*(max|x|/std)^2 (rounding of running-variance recurrences on ill-conditioned columns)',
                'adaptation data are continuous with at least 2 distinct rows per round (zero scale is outside the domain)',
                'inside samplers the rows of a round are the batches delivered to update() during that round']
 CONFIG = {
@@ -43,6 +44,7 @@ REQUIRED = ['dist_with_values_checks', 'dist_generate_checks', 'dist_batch_size_
 KINDS = ['dist', 'adirect', 'dist', 'arej', 'dist', 'adirect', 'dist', 'asmc', 'dist', 'adirect', 'dist', 'dist']
 PLAIN = ['euclidean', 'cityblock', 'chebyshev', 'sqeuclidean', 'canberra', 'braycurtis', 'cosine', 'correlation']
 RTOL = 1e-9
+EPS = float(np.finfo(float).eps)
 
 
 # ---------------------------------------------------------------------------------------------------------
@@ -117,7 +119,8 @@ def stack(spec, outputs, n):
     return np.hstack([np.asarray(outputs[name], dtype=float).reshape(n, hi - lo) for name, lo, hi, _ in layout(spec)])
 
 
-def close(a, b):
+def close(a, b, rtol=None):
+    rtol = RTOL if rtol is None else rtol
     a, b = np.asarray(a, dtype=float), np.asarray(b, dtype=float)
     if a.shape != b.shape:
         return False
@@ -125,11 +128,34 @@ def close(a, b):
         return True
     fin = np.isfinite(b)
     mag = float(np.max(np.abs(b[fin]))) if fin.any() else 0.0
-    return bool(np.allclose(a, b, rtol=RTOL, atol=1e-12 * (1.0 + mag), equal_nan=True))
+    return bool(np.allclose(a, b, rtol=rtol, atol=1e-12 * (1.0 + mag), equal_nan=True))
 
 
 def scaled_euclid(X, obs, scale):
     return np.sqrt(np.sum(((X - obs) / scale) ** 2, axis=1))
+
+
+def std_tol(rows):
+    """(numpy.std per column, admissible absolute deviation per column).
+
+    1e-9 relative, widened for ill-conditioned columns: any one-pass / batched running-variance recurrence carries a
+    rounding error of order eps * (max|x| / std)^2 relative to the result (two nearly equal rows far from zero), which
+    is float rounding of a mathematically equal expression, not a different scale.  A wrong formula (sample instead of
+    population variance, stale mean, wrong count) is off by >= 1/(2n) relative and stays far outside this bound for
+    every generated data set."""
+    rows = np.asarray(rows, dtype=float)
+    sd = np.std(rows, axis=0)
+    mx = np.max(np.abs(rows), axis=0)
+    with np.errstate(all='ignore'):
+        extra = np.where(sd > 0, 1e3 * EPS * mx * mx / np.where(sd > 0, sd, 1.0), 1e-9 * mx)
+    return sd, RTOL * sd + extra
+
+
+def rel_tol(rows):
+    sd, tol = std_tol(rows)
+    with np.errstate(all='ignore'):
+        r = np.where(sd > 0, tol / np.where(sd > 0, sd, 1.0), np.inf)
+    return float(2.0 * np.max(r))
 
 
 # ---------------------------------------------------------------------------------------------------------
@@ -237,9 +263,9 @@ def check_adaptive_output(ctx, out, Q, obs, scales, where, earlier=None):
     if not close(cols[:, 0], e0):
         raise Violation('adaptive-earlier-distance', '%s: column 0 is no longer the unscaled Euclidean distance' % where,
                         {'got': cols[:, 0], 'expected': e0})
-    for j, sc in enumerate(scales, start=1):
+    for j, (sc, rt) in enumerate(scales, start=1):
         e = scaled_euclid(Q, obs, sc)
-        if not close(cols[:, j], e):
+        if not close(cols[:, j], e, rt):
             newest = j == len(scales)
             raise Violation('adaptive-newest-distance' if newest else 'adaptive-earlier-distance',
                             '%s: distance column %d of %d differs from the Euclidean distance of summaries / scale of round %d' % (
@@ -255,12 +281,12 @@ def check_adaptive_output(ctx, out, Q, obs, scales, where, earlier=None):
 
 
 def check_scale(ctx, d, rows, where):
-    exp = np.std(rows, axis=0)
+    exp, tol = std_tol(rows)
     got = np.asarray(d.state['scale'], dtype=float)
     ctx.event('adapt_scale_checks')
-    if got.shape != exp.shape or not np.allclose(got, exp, rtol=RTOL, atol=1e-12 * float(np.max(np.abs(rows)))):
+    if got.shape != exp.shape or not np.all(np.abs(got - exp) <= tol):
         raise Violation('adaptive-scale', '%s: scale differs from numpy.std of all %d rows added in the round' % (where, len(rows)),
-                        {'scale': got, 'expected': exp, 'n_rows': len(rows)})
+                        {'scale': got, 'expected': exp, 'n_rows': len(rows), 'admissible_abs_deviation': tol})
     return exp
 
 
@@ -298,9 +324,10 @@ def run_adirect(ctx, case):
         multi = multi or calls >= 2
         d.update_distance()
         ctx.event('adapt_updates')
-        scales.append(sc)
+        rt = rel_tol(X)
+        scales.append((sc, rt))
         w = d.state['w']
-        if len(w) != len(scales) + 1 or not close(w[-1], 1.0 / sc):
+        if len(w) != len(scales) + 1 or not close(w[-1], 1.0 / sc, rt):
             raise Violation('adaptive-weights', "round %d: state['w'] has %d entries / newest differs from 1/scale" % (r + 1, len(w)),
                             {'w_newest': w[-1], 'expected': 1.0 / sc})
         prev = check_adaptive_output(ctx, d.generate(len(Q0), with_values=split(spec, Q0)), Q0, obs, scales,
@@ -341,7 +368,7 @@ def recorder(sampler, hist, names, round_of):
     sampler.update = recording_update
 
 
-def check_returned(ctx, spec, outputs, threshold, obs, sc, where, n_expected):
+def check_returned(ctx, spec, outputs, threshold, obs, sc, rt, where, n_expected):
     names = [l[0] for l in layout(spec)]
     dd = np.asarray(outputs['d'])
     n = len(np.asarray(outputs[names[0]]))
@@ -350,7 +377,7 @@ def check_returned(ctx, spec, outputs, threshold, obs, sc, where, n_expected):
             where, n, dd.shape, n_expected))
     X = stack(spec, outputs, n)
     e = scaled_euclid(X, obs, sc)
-    if not close(dd, e):
+    if not close(dd, e, rt):
         raise Violation('adaptive-returned-distance-row-mismatch', '%s: returned distance of row i is not the newest distance (Euclidean of '
                         'summaries / scale) of returned row i' % where, {'returned_d': dd, 'newest_distance_of_returned_rows': e, 'scale': sc})
     if not np.all(dd[:-1] <= dd[1:]):
@@ -380,13 +407,14 @@ def run_arej(ctx, case):
             raise Skip('zero scale')
         ctx.event('adapt_add_data_calls', len(hist))
         w = d.state['w']
-        if len(w) != len(scales) + 2 or not close(w[-1], 1.0 / sc):
+        rt = rel_tol(rows)
+        if len(w) != len(scales) + 2 or not close(w[-1], 1.0 / sc, rt):
             raise Violation('adaptive-scale', "Rejection run %d: newest state['w'] is not 1/numpy.std of the %d rows of the %d consumed batches" % (
                 it + 1, len(rows), len(hist)), {'w_newest': w[-1], 'expected': 1.0 / sc, 'n_w': len(w)})
         ctx.event('adapt_scale_checks')
         ctx.event('adapt_updates')
-        scales.append(sc)
-        ctx.event('rejection_rows_checked', check_returned(ctx, spec, res.outputs, res.threshold, obs, sc, 'Rejection run %d' % (it + 1), case['n']))
+        scales.append((sc, rt))
+        ctx.event('rejection_rows_checked', check_returned(ctx, spec, res.outputs, res.threshold, obs, sc, rt, 'Rejection run %d' % (it + 1), case['n']))
         prev = check_adaptive_output(ctx, d.generate(len(Q), with_values=split(spec, Q)), Q, obs, scales, 'node after Rejection run %d' % (it + 1),
                                      earlier=prev)
         ctx.event('rejection_runs')
@@ -420,18 +448,19 @@ def run_asmc(ctx, case):
             raise Skip('zero scale')
         ctx.event('adapt_add_data_calls', len(batches))
         wr = pop.adaptive_distance_w
-        if not close(wr, 1.0 / sc) or not close(d.state['w'][r + 1], 1.0 / sc):
+        rt = rel_tol(rows)
+        if not close(wr, 1.0 / sc, rt) or not close(d.state['w'][r + 1], 1.0 / sc, rt):
             raise Violation('adaptive-scale', 'AdaptiveDistanceSMC round %d: weights are not 1/numpy.std of the %d rows of the %d batches consumed '
                             'in the round' % (r + 1, len(rows), len(batches)), {'w': wr, 'expected': 1.0 / sc})
         ctx.event('adapt_scale_checks')
         ctx.event('adapt_updates')
-        scales.append(sc)
-        check_returned(ctx, spec, pop.outputs, pop.threshold, obs, sc, 'AdaptiveDistanceSMC population %d' % (r + 1), case['n'])
+        scales.append((sc, rt))
+        check_returned(ctx, spec, pop.outputs, pop.threshold, obs, sc, rt, 'AdaptiveDistanceSMC population %d' % (r + 1), case['n'])
         ctx.event('smc_populations_checked')
         ctx.nontrivial(len(batches) >= 2)
     if len(d.state['w']) != len(scales) + 1:
         raise Violation('adaptive-weights', "state['w'] has %d entries after %d rounds" % (len(d.state['w']), len(scales)))
-    if not all(close(a, 1.0 / s) for a, s in zip(res.adaptive_distance_w, scales)):
+    if not all(close(a, 1.0 / s, rt) for a, (s, rt) in zip(res.adaptive_distance_w, scales)):
         raise Violation('adaptive-weights', 'result.adaptive_distance_w differs from 1/scale of the rounds')
     W, scale, offset, coef, _ = arrays(spec)
     Q = offset + scale * (coef + 1.5 * np.random.RandomState(case['seed']).randn(3, W))
